@@ -1,12 +1,22 @@
 /-
 C19 — presolve and compile options never change what is being certified.
-Property theorems about `Model/Sage.lean`.
+Property theorems about `Model/Sage.lean` and `Model/SageKernel.lean`.
 -/
 import SageoptModel.Model.Sage
+import SageoptModel.Model.SageKernel
 import SageoptModel.Lemmas.ExpCone
+import SageoptModel.Lemmas.SageSem
+import SageoptModel.Props.C02
+import SageoptModel.Lemmas.OptCone
+import SageoptModel.Lemmas.OptDualForms
+import SageoptModel.Lemmas.OptKernel
+import SageoptModel.Lemmas.OptRankC
+import SageoptModel.Lemmas.OptForce
+import SageoptModel.Lemmas.OptForceEq
+import SageoptModel.Lemmas.CompileAtoms
 
 namespace Sageopt.Props.C19
-open Sageopt Sageopt.Sage Sageopt.Analysis
+open Sageopt Sageopt.Sage Sageopt.Compile Sageopt.Solvers Sageopt.Analysis
 
 /-- the exponential cone is monotone in its first coordinate: this is what makes the compact dual rows
     `(−(α_i−α_j)·μ, v_j, v_i) ∈ K_exp` equivalent to the epigraph form `(−epi, v_j, v_i) ∈ K_exp ∧ epi ≤ (α_i−α_j)·μ` -/
@@ -17,5 +27,469 @@ theorem expcone_mono_first (x x' y z : ℝ) (h : InExpCone x y z) (hx : x' ≤ x
     apply mul_le_mul_of_nonneg_left _ hz.le
     exact Real.exp_le_exp.mpr (div_le_div_of_nonneg_right hx hz.le)
   · right; exact ⟨hz, le_trans hx hx0, hy⟩
+
+/-- non-vacuity of `expcone_mono_first`: `(0, 1, 1) ∈ K_exp` (`1·e⁰ ≤ 1`), hence `(−1, 1, 1) ∈ K_exp` -/
+example : InExpCone (-1) 1 1 :=
+  expcone_mono_first 0 (-1) 1 1 (Or.inl ⟨one_pos, by simp⟩) (by norm_num)
+
+/-! ### compact vs epigraph dual rows (`compact_dual`) -/
+
+def withCompact (inp : DualIn) (b : Bool) : DualIn := { inp with settings := { inp.settings with compactDual := b } }
+
+/-- every point of the epigraph form is a point of the compact form (the same assignment) -/
+theorem compact_of_epigraph (Q : CType → List ℝ → Prop) (inp : DualIn) (hwf : C02.WfDual (withCompact inp false))
+    (rowsE : List CRow) (KE : List Cone) (hE : dualRows (withCompact inp false) = .ok (rowsE, KE))
+    (rowsC : List CRow) (KC : List Cone) (hC : dualRows (withCompact inp true) = .ok (rowsC, KC))
+    (σ : Nat → ℝ) (hσ : FeasRows Q σ rowsE KE) : FeasRows Q σ rowsC KC := by
+  rw [opt_dualRows_sem Q (opt_withCompact inp false) hwf.dom rowsE KE hE] at hσ
+  rw [opt_dualRows_sem Q (opt_withCompact inp true) hwf.dom rowsC KC hC]
+  exact opt_dualSem_compact_of_epi Q inp σ hσ
+
+/-- every point of the compact form extends (on the epigraph variables only) to a point of the epigraph form -/
+theorem epigraph_of_compact (Q : CType → List ℝ → Prop) (inp : DualIn) (hwf : C02.WfDual (withCompact inp false))
+    (rowsE : List CRow) (KE : List Cone) (hE : dualRows (withCompact inp false) = .ok (rowsE, KE))
+    (rowsC : List CRow) (KC : List Cone) (hC : dualRows (withCompact inp true) = .ok (rowsC, KC))
+    (σ : Nat → ℝ) (hσ : FeasRows Q σ rowsC KC) :
+    ∃ σ' : Nat → ℝ, (∀ id, id ∉ inp.ids.flatMap (·.epi) → σ' id = σ id) ∧ FeasRows Q σ' rowsE KE := by
+  rw [opt_dualRows_sem Q (opt_withCompact inp true) hwf.dom rowsC KC hC] at hσ
+  obtain ⟨h1, h2⟩ := opt_dualSem_epi_of_compact Q inp hwf.vlen
+    (fun p hp => ⟨(hwf.cover p hp).1, (hwf.cover p hp).2.1⟩) (fun p hp => (hwf.sizes p hp).2 rfl)
+    hwf.fresh.1 hwf.fresh.2 σ hσ
+  refine ⟨_, h1, ?_⟩
+  rw [opt_dualRows_sem Q (opt_withCompact inp false) hwf.dom rowsE KE hE]
+  exact h2
+
+/-! non-vacuity: the epigraph-form instance of C02 (`α = (0, 1, 2)ᵀ`, `v` a Variable, full covers) -/
+
+private theorem exEpi_wf : C02.WfDual (withCompact C02.exEpi false) := C02.exEpi_wf
+
+/-- both forms compile -/
+example : ∃ rows K, dualRows (withCompact C02.exEpi false) = .ok (rows, K) ∧ rows.length = 27 ∧ K.length = 10 :=
+  ⟨_, _, rfl, rfl, rfl⟩
+example : dualRows (withCompact C02.exEpi true) = .ok (C02.exOrdRows, ⟨.pos, 3⟩ :: List.replicate 6 ⟨.exp, 3⟩) := by
+  with_unfolding_all decide
+
+/-- the epigraph form has a point (a moment vector, by C02), which is then a point of the compact form -/
+example (Q : CType → List ℝ → Prop) (rowsE : List CRow) (KE : List Cone) (rowsC : List CRow) (KC : List Cone)
+    (hE : dualRows (withCompact C02.exEpi false) = .ok (rowsE, KE))
+    (hC : dualRows (withCompact C02.exEpi true) = .ok (rowsC, KC)) :
+    ∃ σ : Nat → ℝ, FeasRows Q σ rowsE KE ∧ FeasRows Q σ rowsC KC := by
+  obtain ⟨_, _, h3⟩ := C02.dual_moment_extension Q C02.exEpi C02.exEpi_wf _ _ hE [0] [0] rfl rfl 1 zero_le_one
+    (fun _ => 1) (by
+      intro j hj
+      have hj' : j = 0 ∨ j = 1 ∨ j = 2 := by have : j < 3 := hj; omega
+      rcases hj' with rfl | rfl | rfl <;> simp [C02.exEpi, C02.exOrd, C02.exV, C02.exAlpha, varE, argVal, rdot])
+  exact ⟨_, h3, compact_of_epigraph Q C02.exEpi exEpi_wf _ _ hE _ _ hC _ h3⟩
+
+/-- and every point of the compact form of that instance extends to the epigraph form -/
+example (Q : CType → List ℝ → Prop) (rowsE : List CRow) (KE : List Cone) (rowsC : List CRow) (KC : List Cone)
+    (hE : dualRows (withCompact C02.exEpi false) = .ok (rowsE, KE))
+    (hC : dualRows (withCompact C02.exEpi true) = .ok (rowsC, KC)) (σ : Nat → ℝ) (hσ : FeasRows Q σ rowsC KC) :
+    ∃ σ' : Nat → ℝ, σ' 0 = σ 0 ∧ σ' 1 = σ 1 ∧ σ' 2 = σ 2 ∧ σ' 3 = σ 3 ∧ FeasRows Q σ' rowsE KE := by
+  obtain ⟨σ', h1, h2⟩ := epigraph_of_compact Q C02.exEpi exEpi_wf rowsE KE hE rowsC KC hC σ hσ
+  exact ⟨σ', h1 0 (by decide), h1 1 (by decide), h1 2 (by decide), h1 3 (by decide), h2⟩
+
+/-- the hypothesis `hσ` of the previous example is satisfiable: the compact rows `C02.exOrdRows` have the point
+    `v = (1, 1, 1)`, `μ = 0` -/
+example (Q : CType → List ℝ → Prop) :
+    FeasRows Q (fun id => if id ≤ 2 then 1 else 0) C02.exOrdRows (⟨.pos, 3⟩ :: List.replicate 6 ⟨.exp, 3⟩) := by
+  unfold FeasRows C02.exOrdRows
+  simp only [List.replicate, feasBlocks_cons, feasBlocks_nil, List.map_cons, List.map_nil, crowVal_false,
+    List.take_succ_cons, List.take_zero, List.drop_succ_cons, List.drop_zero, conP, realP, expR,
+    List.sum_cons, List.sum_nil, and_true]
+  norm_num [InExpCone]
+
+/-! ### forced equality of the AGE sum (`sum_age_force_equality`) -/
+
+def withForce (inp : PrimalIn) (b : Bool) : PrimalIn := { inp with settings := { inp.settings with sumAgeForceEquality := b } }
+
+/-- equality is stronger: a point of the forced-equality system is a point of the inequality system -/
+theorem ineq_of_force_eq (Q : CType → List ℝ → Prop) (inp : PrimalIn) (hwf : WfPrimal inp)
+    (rowsT : List CRow) (KT : List Cone) (hT : primalRows (withForce inp true) = .ok (rowsT, KT))
+    (rowsF : List CRow) (KF : List Cone) (hF : primalRows (withForce inp false) = .ok (rowsF, KF))
+    (σ : Nat → ℝ) (hσ : FeasRows Q σ rowsT KT) : FeasRows Q σ rowsF KF :=
+  opt_ineq_of_force_eq Q inp hwf.dom rowsT KT hT rowsF KF hF σ hσ
+
+/-! non-vacuity: the ordinary instance `1 − 2eˣ + e²ˣ` of C01 (default covers: `U = N = [1]`, cover `{0, 2}`) -/
+
+def fxAlpha : List (List Rat) := [[0], [1], [2]]
+def fxC : List AffE := [constE 1, constE (-2), constE 1]
+def fxEch : Ech := { U := [1], N := [1], P := [0, 2], covers := [(1, [true, false, true])] }
+def fxP : PIds := { i := 1, nu := [10, 11], basis := [], cvar := [12, 13], epi := [14, 15], eta := [] }
+def fxInp : PrimalIn :=
+  { n := 1, alpha := fxAlpha, c := fxC, X := none, settings := {}, ech := fxEch, ids := [fxP], dummy := 20 }
+
+/-- these are the covers `ExpCoverHelper` computes -/
+example : (defaultEch fxAlpha (some (fxC.map classify)) false {} []).covers = fxEch.covers ∧
+    (defaultEch fxAlpha (some (fxC.map classify)) false {} []).U = fxEch.U ∧
+    (defaultEch fxAlpha (some (fxC.map classify)) false {} []).N = fxEch.N := by with_unfolding_all decide
+
+def fxBlock : List CRow :=
+  [⟨[(14, -1), (15, -1)], -2, false⟩,
+   ⟨[(14, -1)], 0, false⟩, ⟨[(12, 1)], 0, true⟩, ⟨[(10, 1)], 0, false⟩,
+   ⟨[(15, -1)], 0, false⟩, ⟨[(13, 1)], 0, true⟩, ⟨[(11, 1)], 0, false⟩,
+   ⟨[(10, -1), (11, 1)], 0, false⟩]
+def fxSum : List CRow := [⟨[(12, -1)], 1, false⟩, ⟨[(20, 0)], 0, false⟩, ⟨[(13, -1)], 1, false⟩]
+def fxKT : List Cone := [⟨.pos, 1⟩, ⟨.exp, 3⟩, ⟨.exp, 3⟩, ⟨.zero, 1⟩, ⟨.zero, 3⟩]
+def fxKF : List Cone := [⟨.pos, 1⟩, ⟨.exp, 3⟩, ⟨.exp, 3⟩, ⟨.zero, 1⟩, ⟨.pos, 3⟩]
+
+private theorem fxInp_rowsT : primalRows (withForce fxInp true) = .ok (fxBlock ++ fxSum, fxKT) := by with_unfolding_all decide
+private theorem fxInp_rowsF : primalRows (withForce fxInp false) = .ok (fxBlock ++ fxSum, fxKF) := by with_unfolding_all decide
+
+private theorem fxInp_wf : WfPrimal fxInp where
+  width := by with_unfolding_all decide
+  clen := by with_unfolding_all decide
+  idsU := by with_unfolding_all decide
+  cover := by with_unfolding_all decide
+  sizes := by with_unfolding_all decide
+  negConst := by with_unfolding_all decide
+  dom := by intro X h; cases h
+
+/-- ν = (1,1), c^{(1)} = (1,−2,1), epi = (−1,−1): all three sums are exact -/
+noncomputable def fxσ : Nat → ℝ := fun id =>
+  if id = 14 ∨ id = 15 then -1 else if id = 10 ∨ id = 11 ∨ id = 12 ∨ id = 13 then 1 else 0
+
+private theorem fxInp_feasT (Q : CType → List ℝ → Prop) : FeasRows Q fxσ (fxBlock ++ fxSum) fxKT := by
+  unfold FeasRows fxBlock fxSum fxKT
+  simp only [List.cons_append, List.nil_append, feasBlocks_cons, feasBlocks_nil, List.map_cons, List.map_nil,
+    crowVal_false, crowVal_true,
+    List.take_succ_cons, List.take_zero, List.drop_succ_cons, List.drop_zero, conP, realP, expR,
+    List.sum_cons, List.sum_nil, and_true]
+  simp only [fxσ]
+  norm_num
+  exact Or.inl ⟨one_pos, by simp⟩
+
+/-- `ineq_of_force_eq` applies: the point of the forced-equality system is a point of the inequality system -/
+example (Q : CType → List ℝ → Prop) : FeasRows Q fxσ (fxBlock ++ fxSum) fxKF :=
+  ineq_of_force_eq Q fxInp fxInp_wf _ _ fxInp_rowsT _ _ fxInp_rowsF fxσ (fxInp_feasT Q)
+
+/-- the relative-entropy block of one AGE cone is monotone: raising the `y` arguments (the cover entries of the
+    AGE vector) and lowering `z` (raising the own entry) keeps it feasible.  This is why slack can be absorbed. -/
+theorem relent_block_mono (z z' : ℝ) (epi x y y' : List ℝ) (hy : y.length = y'.length)
+    (hyy : ∀ k, k < y.length → y.getD k 0 ≤ y'.getD k 0) (hz : z' ≤ z)
+    (h0 : 0 ≤ -z - epi.sum)
+    (h : ∀ k, k < x.length → InExpCone (-(epi.getD k 0)) (Real.exp 1 * y.getD k 0) (x.getD k 0)) :
+    0 ≤ -z' - epi.sum ∧ ∀ k, k < x.length → InExpCone (-(epi.getD k 0)) (Real.exp 1 * y'.getD k 0) (x.getD k 0) := by
+  refine ⟨by linarith, fun k hk => ?_⟩
+  apply opt_expcone_mono_second _ _ _ _ (h k hk)
+  exact mul_le_mul_of_nonneg_left (opt_getD_le_of_length hy hyy k) (Real.exp_pos 1).le
+
+/-- non-vacuity of `relent_block_mono`: the block `(−0, e·1, 1) ∈ K_exp`, `0 ≤ 1 − 0` stays feasible when the
+    cover entry is raised to `2` and the own entry to `3` -/
+example : 0 ≤ -(-3 : ℝ) - ([0] : List ℝ).sum ∧
+    ∀ k, k < ([1] : List ℝ).length →
+      InExpCone (-(([0] : List ℝ).getD k 0)) (Real.exp 1 * ([2] : List ℝ).getD k 0) (([1] : List ℝ).getD k 0) := by
+  apply relent_block_mono (-1) (-3) [0] [1] [1] [2] rfl
+  · intro k hk
+    have : k = 0 := by simpa using hk
+    subst this; norm_num
+  · norm_num
+  · norm_num
+  · intro k hk
+    have : k = 0 := by simpa using hk
+    subst this
+    left
+    simp
+
+/-- abstract absorption: if every cone `A i` is monotone at the indices it reaches, then "sum ≤ c" and
+    "sum = c at reached indices, ≤ elsewhere" certify the same vectors `c`.  (`F7`: before the repair the code
+    demanded equality at ALL indices, which is NOT equivalent — see `force_eq_all_indices_differs`.) -/
+theorem absorb_slack (m : Nat) (U : List Nat) (reach : Nat → Nat → Bool) (A : Nat → (Nat → ℝ) → Prop)
+    (hmono : ∀ i ∈ U, ∀ a j (s : ℝ), reach i j = true → 0 ≤ s → A i a → A i (Function.update a j (a j + s)))
+    (c : Nat → ℝ) :
+    (∃ ages : Nat → Nat → ℝ, (∀ i ∈ U, A i (ages i)) ∧ ∀ j, j < m → (U.map fun i => ages i j).sum ≤ c j) ↔
+    (∃ ages : Nat → Nat → ℝ, (∀ i ∈ U, A i (ages i)) ∧ ∀ j, j < m →
+        if U.any (fun i => reach i j) then (U.map fun i => ages i j).sum = c j else (U.map fun i => ages i j).sum ≤ c j) := by
+  constructor
+  · rintro ⟨ages, hA, hle⟩
+    obtain ⟨ages', hA', hc, _⟩ := opt_absorb_aux U reach A hmono c m ages hA hle
+    exact ⟨ages', hA', hc⟩
+  · rintro ⟨ages, hA, hc⟩
+    refine ⟨ages, hA, fun j hj => ?_⟩
+    have := hc j hj
+    split at this
+    · exact this.le
+    · exact this
+
+/-- non-vacuity of `absorb_slack`: `U = [1]`, `reach 1 j = (j ≤ 1)`, the cone "nonnegative at 0 and 1, zero
+    elsewhere" is monotone at the reached indices, and the inequality side holds for `c = (1, 2, 3)` -/
+example : ∃ ages : Nat → Nat → ℝ,
+    (∀ i ∈ [1], (fun (_ : Nat) (a : Nat → ℝ) => 0 ≤ a 0 ∧ 0 ≤ a 1 ∧ ∀ j, 2 ≤ j → a j = 0) i (ages i)) ∧
+    ∀ j, j < 3 →
+      if [1].any (fun i => (fun (_ j : Nat) => decide (j ≤ 1)) i j) then ([1].map fun i => ages i j).sum = ((j : ℝ) + 1)
+      else ([1].map fun i => ages i j).sum ≤ ((j : ℝ) + 1) := by
+  refine (absorb_slack 3 [1] (fun _ j => decide (j ≤ 1))
+    (fun _ a => 0 ≤ a 0 ∧ 0 ≤ a 1 ∧ ∀ j, 2 ≤ j → a j = 0) ?_ (fun j => (j : ℝ) + 1)).1 ?_
+  · intro i _ a j s hr hs ⟨h0, h1, h2⟩
+    have hj : j ≤ 1 := by simpa using hr
+    refine ⟨?_, ?_, fun j' hj' => ?_⟩
+    · by_cases h : j = 0
+      · subst h; simp; linarith
+      · rw [Function.update_of_ne (Ne.symm h)]; exact h0
+    · by_cases h : j = 1
+      · subst h; simp; linarith
+      · rw [Function.update_of_ne (Ne.symm h)]; exact h1
+    · rw [Function.update_of_ne (by omega)]; exact h2 j' hj'
+  · refine ⟨fun _ _ => 0, ?_, ?_⟩
+    · intro i _; simp
+    · intro j _; simp; positivity
+
+/-- the pre-repair behaviour (equality at every index) is genuinely different: with `U = [1]`, `reach 1 j = (j ≤ 1)`
+    and cones that vanish off the reached indices, `c = (0, 0, 1)` is certified by the inequality form only -/
+theorem force_eq_all_indices_differs :
+    ∃ (A : Nat → (Nat → ℝ) → Prop) (c : Nat → ℝ),
+      (∃ ages : Nat → Nat → ℝ, A 1 (ages 1) ∧ ∀ j, j < 3 → ages 1 j ≤ c j) ∧
+      ¬ (∃ ages : Nat → Nat → ℝ, A 1 (ages 1) ∧ ∀ j, j < 3 → ages 1 j = c j) := by
+  refine ⟨fun _ a => 0 ≤ a 0 ∧ 0 ≤ a 1 ∧ ∀ j, 2 ≤ j → a j = 0, fun j => if j = 2 then 1 else 0, ?_, ?_⟩
+  · refine ⟨fun _ _ => 0, ⟨le_refl _, le_refl _, fun _ _ => rfl⟩, fun j _ => ?_⟩
+    by_cases h : j = 2
+    · simp [h]
+    · simp [h]
+  · rintro ⟨ages, ⟨_, _, h2⟩, heq⟩
+    have h := heq 2 (by norm_num)
+    rw [h2 2 (le_refl 2)] at h
+    simp at h
+
+/-! ### the converse at the row level: a point of the inequality system becomes a point of the forced-equality
+    system by raising `c^{(i)}` variables -/
+
+/-- `FreshC` = the ids of the `c^{(i)}` Variables are pairwise distinct and occur neither in `c` nor among the
+    `nu`/`epi`/`eta` ids (the constructor creates them fresh); the indices of `ids` are pairwise distinct -/
+def FreshC (inp : PrimalIn) : Prop :=
+  (inp.ids.flatMap (·.cvar)).Nodup ∧
+  (∀ id ∈ inp.ids.flatMap (·.cvar), (∀ cj ∈ inp.c, id ∉ cj.co.map (·.1)) ∧
+      id ∉ inp.ids.flatMap (fun p => p.nu ++ p.epi ++ p.eta)) ∧
+  (inp.ids.map (·.i)).Nodup
+
+/-- counterexample input: the cover list carries a stray entry `(7, …)` for an index outside `U_I = [1]`;
+    it makes index 3 "reached" although no AGE vector touches it (`c_3 = 1`) -/
+def cxInp : PrimalIn :=
+  { n := 1, alpha := [[0], [1], [2], [3]], c := [constE 0, varE 100, constE 0, constE 1], X := none,
+    settings := {},
+    ech := { U := [1], N := [], P := [3], covers := [(1, [true, false, true, false]), (7, [false, false, false, true])] },
+    ids := [{ i := 1, nu := [10, 11], basis := [], cvar := [12, 13, 16], epi := [14, 15], eta := [] }], dummy := 20 }
+
+def cxRows : List CRow :=
+  [⟨[(16, 1), (14, -1), (15, -1)], 0, false⟩,
+   ⟨[(14, -1)], 0, false⟩, ⟨[(12, 1)], 0, true⟩, ⟨[(10, 1)], 0, false⟩,
+   ⟨[(15, -1)], 0, false⟩, ⟨[(13, 1)], 0, true⟩, ⟨[(11, 1)], 0, false⟩,
+   ⟨[(10, -1), (11, 1)], 0, false⟩,
+   ⟨[(12, -1)], 0, false⟩, ⟨[(16, -1), (100, 1)], 0, false⟩, ⟨[(13, -1)], 0, false⟩, ⟨[(20, 0)], 1, false⟩]
+
+private theorem cxInp_rowsT : primalRows (withForce cxInp true) =
+    .ok (cxRows, [⟨.pos, 1⟩, ⟨.exp, 3⟩, ⟨.exp, 3⟩, ⟨.zero, 1⟩, ⟨.zero, 4⟩]) := by with_unfolding_all decide
+private theorem cxInp_rowsF : primalRows (withForce cxInp false) =
+    .ok (cxRows, [⟨.pos, 1⟩, ⟨.exp, 3⟩, ⟨.exp, 3⟩, ⟨.zero, 1⟩, ⟨.pos, 4⟩]) := by with_unfolding_all decide
+
+private theorem cxInp_wf : WfPrimal cxInp where
+  width := by with_unfolding_all decide
+  clen := by with_unfolding_all decide
+  idsU := by with_unfolding_all decide
+  cover := by with_unfolding_all decide
+  sizes := by with_unfolding_all decide
+  negConst := by with_unfolding_all decide
+  dom := by intro X h; cases h
+
+private theorem cxInp_fresh : FreshC cxInp := by
+  unfold FreshC
+  with_unfolding_all decide
+
+/-- the target statement of `force_eq_of_ineq` (hypotheses `WfPrimal`, `FreshC`, `hcov0` only) is false for the
+    model: nothing in them says that the cover list has entries for the indices of `U_I` only.  On `cxInp` the
+    all-zero assignment satisfies the inequality system, while the forced-equality system contains the row
+    `1 = 0` (index 3, "reached" through the stray entry) -/
+theorem force_eq_of_ineq_needs_covers :
+    ¬ ∀ (Q : CType → List ℝ → Prop) (inp : PrimalIn) (_ : WfPrimal inp) (_ : FreshC inp)
+      (_ : ∀ p ∈ inp.ids, p.nu = [] → trueIdx (coverOf inp.ech p.i) = [])
+      (rowsT : List CRow) (KT : List Cone) (_ : primalRows (withForce inp true) = .ok (rowsT, KT))
+      (rowsF : List CRow) (KF : List Cone) (_ : primalRows (withForce inp false) = .ok (rowsF, KF))
+      (σ : Nat → ℝ) (_ : FeasRows Q σ rowsF KF),
+      ∃ σ' : Nat → ℝ, (∀ id, id ∉ inp.ids.flatMap (·.cvar) → σ' id = σ id) ∧ FeasRows Q σ' rowsT KT := by
+  intro h
+  have hF : FeasRows (fun _ _ => True) (fun _ => 0) cxRows [⟨.pos, 1⟩, ⟨.exp, 3⟩, ⟨.exp, 3⟩, ⟨.zero, 1⟩, ⟨.pos, 4⟩] := by
+    unfold FeasRows cxRows
+    simp only [feasBlocks_cons, feasBlocks_nil, List.map_cons, List.map_nil, crowVal_false, crowVal_true,
+      List.take_succ_cons, List.take_zero, List.drop_succ_cons, List.drop_zero, conP, realP, expR,
+      List.sum_cons, List.sum_nil, and_true]
+    norm_num [InExpCone]
+  obtain ⟨σ', _, hT⟩ := h (fun _ _ => True) cxInp cxInp_wf cxInp_fresh (by with_unfolding_all decide)
+    _ _ cxInp_rowsT _ _ cxInp_rowsF (fun _ => 0) hF
+  unfold FeasRows cxRows at hT
+  simp only [feasBlocks_cons, feasBlocks_nil, List.map_cons, List.map_nil, crowVal_false, crowVal_true,
+    List.take_succ_cons, List.take_zero, List.drop_succ_cons, List.drop_zero, conP, realP, expR,
+    List.sum_cons, List.sum_nil, and_true] at hT
+  have := hT.2.2.2.2 (((0 : Rat) : ℝ) * σ' 20 + 0 + ((1 : Rat) : ℝ)) (by simp)
+  norm_num at this
+
+/-- STRETCH (row level, the converse of `ineq_of_force_eq`): a point of the inequality system can be changed on
+    the `c^{(i)}` variables only so that it satisfies the forced-equality system.  Extra hypothesis `hkeys`: the
+    cover list has exactly one entry per index of `U_I`, in the order of `U_I` — what `ExpCoverHelper` builds
+    (see the doc-string of `Ech.covers`) and what every presolve step, `kernelPrune` included, preserves. -/
+theorem force_eq_of_ineq_partial (Q : CType → List ℝ → Prop) (inp : PrimalIn) (hwf : WfPrimal inp) (hfresh : FreshC inp)
+    (hcov0 : ∀ p ∈ inp.ids, p.nu = [] → trueIdx (coverOf inp.ech p.i) = [])
+    (hkeys : inp.ech.covers.map (·.1) = inp.ech.U)
+    (rowsT : List CRow) (KT : List Cone) (hT : primalRows (withForce inp true) = .ok (rowsT, KT))
+    (rowsF : List CRow) (KF : List Cone) (hF : primalRows (withForce inp false) = .ok (rowsF, KF))
+    (σ : Nat → ℝ) (hσ : FeasRows Q σ rowsF KF) :
+    ∃ σ' : Nat → ℝ, (∀ id, id ∉ inp.ids.flatMap (·.cvar) → σ' id = σ id) ∧ FeasRows Q σ' rowsT KT :=
+  opt_force_eq_of_ineq Q inp ⟨hwf, hfresh, hcov0, hkeys⟩ rowsT KT hT rowsF KF hF σ hσ
+
+/-! non-vacuity: `2 − 2eˣ + e²ˣ` — the certificate of `1 − 2eˣ + e²ˣ` leaves slack `1` at index 0 -/
+
+def gxInp : PrimalIn := { fxInp with c := [constE 2, constE (-2), constE 1] }
+def gxSum : List CRow := [⟨[(12, -1)], 2, false⟩, ⟨[(20, 0)], 0, false⟩, ⟨[(13, -1)], 1, false⟩]
+
+private theorem gxInp_rowsT : primalRows (withForce gxInp true) = .ok (fxBlock ++ gxSum, fxKT) := by
+  with_unfolding_all decide
+private theorem gxInp_rowsF : primalRows (withForce gxInp false) = .ok (fxBlock ++ gxSum, fxKF) := by
+  with_unfolding_all decide
+
+private theorem gxInp_wf : WfPrimal gxInp where
+  width := by with_unfolding_all decide
+  clen := by with_unfolding_all decide
+  idsU := by with_unfolding_all decide
+  cover := by with_unfolding_all decide
+  sizes := by with_unfolding_all decide
+  negConst := by with_unfolding_all decide
+  dom := by intro X h; cases h
+
+private theorem gxInp_fresh : FreshC gxInp := by
+  unfold FreshC
+  with_unfolding_all decide
+
+private theorem gxInp_feasF (Q : CType → List ℝ → Prop) : FeasRows Q fxσ (fxBlock ++ gxSum) fxKF := by
+  unfold FeasRows fxBlock gxSum fxKF
+  simp only [List.cons_append, List.nil_append, feasBlocks_cons, feasBlocks_nil, List.map_cons, List.map_nil,
+    crowVal_false, crowVal_true,
+    List.take_succ_cons, List.take_zero, List.drop_succ_cons, List.drop_zero, conP, realP, expR,
+    List.sum_cons, List.sum_nil, and_true]
+  simp only [fxσ]
+  norm_num
+  exact Or.inl ⟨one_pos, by simp⟩
+
+/-- `fxσ` is NOT a point of the forced-equality system (`2 − 1 ≠ 0`) … -/
+example (Q : CType → List ℝ → Prop) : ¬ FeasRows Q fxσ (fxBlock ++ gxSum) fxKT := by
+  unfold FeasRows fxBlock gxSum fxKT
+  simp only [List.cons_append, List.nil_append, feasBlocks_cons, feasBlocks_nil, List.map_cons, List.map_nil,
+    crowVal_false, crowVal_true,
+    List.take_succ_cons, List.take_zero, List.drop_succ_cons, List.drop_zero, conP, realP, expR,
+    List.sum_cons, List.sum_nil, and_true]
+  simp only [fxσ]
+  norm_num
+
+/-- … but `force_eq_of_ineq_partial` moves it (on the ids 12, 13 of `c^{(1)}` only) to one -/
+example (Q : CType → List ℝ → Prop) :
+    ∃ σ' : Nat → ℝ, σ' 10 = 1 ∧ σ' 11 = 1 ∧ σ' 14 = -1 ∧ σ' 15 = -1 ∧ FeasRows Q σ' (fxBlock ++ gxSum) fxKT := by
+  obtain ⟨σ', h1, h2⟩ := force_eq_of_ineq_partial Q gxInp gxInp_wf gxInp_fresh (by with_unfolding_all decide) rfl
+    _ _ gxInp_rowsT _ _ gxInp_rowsF fxσ (gxInp_feasF Q)
+  refine ⟨σ', ?_, ?_, ?_, ?_, h2⟩
+  · rw [h1 10 (by decide)]; simp [fxσ]
+  · rw [h1 11 (by decide)]; simp [fxσ]
+  · rw [h1 14 (by decide)]; simp [fxσ]
+  · rw [h1 15 (by decide)]; simp [fxσ]
+
+/-! ### kernel-basis witnesses (`kernel_basis`): pruning a cone with a trivial kernel -/
+
+/-- when the model (exact elimination) says the kernel is trivial, the balance equations force `ν = 0` -/
+theorem kernelTrivial_sound (n : Nat) (alpha : List (List Rat)) (i : Nat) (cov : List Bool)
+    (hw : ∀ r ∈ alpha, r.length = n)
+    (h : kernelTrivial n alpha i cov = true) (ν : List ℝ) (hν : ν.length = (trueIdx cov).length)
+    (hbal : ∀ t, t < n → (((trueIdx cov).zip ν).map fun (j, v) =>
+        ((((alpha.getD j []).getD t 0 - (alpha.getD i []).getD t 0 : Rat)) : ℝ) * v).sum = 0) :
+    ∀ k, k < ν.length → ν.getD k 0 = 0 :=
+  opt_kernelTrivial_sound n alpha i cov hw h ν hν hbal
+
+/-- non-vacuity of `kernelTrivial_sound`: `α = ((0,0), (1,0), (0,1))`, `i = 0`, cover `{1, 2}`: the differences
+    `(1,0)`, `(0,1)` are independent, the model says "trivial", and the theorem applies to every `ν` -/
+example : kernelTrivial 2 [[0, 0], [1, 0], [0, 1]] 0 [false, true, true] = true := by with_unfolding_all decide
+
+example (ν : List ℝ) (hν : ν.length = (trueIdx [false, true, true]).length)
+    (hbal : ∀ t, t < 2 → (((trueIdx [false, true, true]).zip ν).map fun (j, v) =>
+        (((([[0, 0], [1, 0], [0, 1]] : List (List Rat)).getD j []).getD t 0
+          - (([[0, 0], [1, 0], [0, 1]] : List (List Rat)).getD 0 []).getD t 0 : Rat) : ℝ) * v).sum = 0) :
+    ∀ k, k < ν.length → ν.getD k 0 = 0 :=
+  kernelTrivial_sound 2 [[0, 0], [1, 0], [0, 1]] 0 [false, true, true]
+    (by intro r hr; simp at hr; rcases hr with rfl | rfl | rfl <;> rfl)
+    (by with_unfolding_all decide) ν hν hbal
+
+/-- the hypotheses of the instance are satisfiable (by `ν = (0, 0)`) -/
+example : ∃ ν : List ℝ, ν.length = (trueIdx [false, true, true]).length ∧
+    ∀ t, t < 2 → (((trueIdx [false, true, true]).zip ν).map fun (j, v) =>
+        (((([[0, 0], [1, 0], [0, 1]] : List (List Rat)).getD j []).getD t 0
+          - (([[0, 0], [1, 0], [0, 1]] : List (List Rat)).getD 0 []).getD t 0 : Rat) : ℝ) * v).sum = 0 :=
+  ⟨[0, 0], by simp [trueIdx], by intro t _; simp [trueIdx]⟩
+
+/-- the dependent family `(1,0), (2,0)` is (correctly) not declared trivial -/
+example : kernelTrivial 2 [[0, 0], [1, 0], [2, 0]] 0 [false, true, true] = false := by with_unfolding_all decide
+
+/-- with `ν = 0` a relative-entropy block only says that the cover entries and the own entry are nonnegative:
+    the cone is the nonnegative orthant, which is what the code's "empty cover" branch imposes -/
+theorem relent_block_zero_nu (z : ℝ) (epi y : List ℝ) (he : epi.length = y.length)
+    (h0 : 0 ≤ -z - epi.sum)
+    (h : ∀ k, k < y.length → InExpCone (-(epi.getD k 0)) (Real.exp 1 * y.getD k 0) 0) :
+    0 ≤ -z ∧ ∀ k, k < y.length → 0 ≤ y.getD k 0 := by
+  have hepi : 0 ≤ epi.sum := by
+    apply opt_sum_nonneg_of_getD
+    intro k hk
+    have := (opt_expcone_zero _ _ (h k (he ▸ hk))).1
+    linarith
+  refine ⟨by linarith, fun k hk => ?_⟩
+  have := (opt_expcone_zero _ _ (h k hk)).2
+  exact nonneg_of_mul_nonneg_right this (Real.exp_pos 1)
+
+/-- non-vacuity of `relent_block_zero_nu` -/
+example : 0 ≤ -(-1 : ℝ) ∧ ∀ k, k < ([2] : List ℝ).length → 0 ≤ ([2] : List ℝ).getD k 0 := by
+  apply relent_block_zero_nu (-1) [1] [2] rfl
+  · norm_num
+  · intro k hk
+    have : k = 0 := by simpa using hk
+    subst this
+    right
+    refine ⟨rfl, by norm_num, ?_⟩
+    have := Real.exp_pos 1
+    simp; linarith
+
+/-- the target statement of `kernelPrune_spec` (no hypothesis on `e`) is false: if the cover list carries two
+    entries for the same index (the constructor never produces that: one entry per `i ∈ U_I`, in the order of
+    `U_I`), "the entry of index `p.1`" is ambiguous -/
+theorem kernelPrune_spec_needs_nodup :
+    ¬ ∀ (n : Nat) (alpha : List (List Rat)) (hasX : Bool) (s : Settings) (e : Ech),
+      let e' := kernelPrune n alpha hasX s e
+      e'.U = e.U ∧ e'.N = e.N ∧ e'.P = e.P ∧ e'.covers.map (·.1) = e.covers.map (·.1) ∧
+      ∀ p ∈ e.covers, ∀ p' ∈ e'.covers, p'.1 = p.1 →
+        p'.2 = p.2 ∨ (s.kernelBasis = true ∧ hasX = false ∧ kernelTrivial n alpha p.1 p.2 = true ∧
+          p'.2 = p.2.map fun _ => false) := by
+  intro h
+  have h1 := (h 0 [] false {} ⟨[], [], [], [(0, [true]), (0, [false])]⟩).2.2.2.2
+    (0, [true]) (by simp) (0, [false]) (by simp [kernelPrune]) rfl
+  simp at h1
+
+/-- `kernelPrune` only ever empties covers, and only when the kernel is trivial (the cover list has one entry
+    per index, as the constructor guarantees) -/
+theorem kernelPrune_spec_partial (n : Nat) (alpha : List (List Rat)) (hasX : Bool) (s : Settings) (e : Ech)
+    (hnd : (e.covers.map (·.1)).Nodup) :
+    let e' := kernelPrune n alpha hasX s e
+    e'.U = e.U ∧ e'.N = e.N ∧ e'.P = e.P ∧ e'.covers.map (·.1) = e.covers.map (·.1) ∧
+    ∀ p ∈ e.covers, ∀ p' ∈ e'.covers, p'.1 = p.1 →
+      p'.2 = p.2 ∨ (s.kernelBasis = true ∧ hasX = false ∧ kernelTrivial n alpha p.1 p.2 = true ∧ p'.2 = p.2.map fun _ => false) :=
+  opt_kernelPrune_spec n alpha hasX s e hnd
+
+/-- non-vacuity of `kernelPrune_spec_partial`: on the instance above the cover of index 0 is emptied -/
+example : (kernelPrune 2 [[0, 0], [1, 0], [0, 1]] false { kernelBasis := true }
+    ⟨[0], [], [], [(0, [false, true, true])]⟩).covers = [(0, [false, false, false])] := by with_unfolding_all decide
+
+example : ∀ p' ∈ (kernelPrune 2 [[0, 0], [1, 0], [0, 1]] false { kernelBasis := true }
+      ⟨[0], [], [], [(0, [false, true, true])]⟩).covers, p'.1 = 0 →
+    p'.2 = [false, true, true] ∨ p'.2 = [false, false, false] := by
+  intro p' hp' h0
+  rcases (kernelPrune_spec_partial 2 [[0, 0], [1, 0], [0, 1]] false { kernelBasis := true }
+    ⟨[0], [], [], [(0, [false, true, true])]⟩ (by decide)).2.2.2.2 (0, [false, true, true]) (by simp) p' hp' h0
+    with h | ⟨_, _, _, h⟩
+  · exact Or.inl h
+  · exact Or.inr h
+
+/-- with a domain present nothing is pruned -/
+example : (kernelPrune 2 [[0, 0], [1, 0], [0, 1]] true { kernelBasis := true }
+    ⟨[0], [], [], [(0, [false, true, true])]⟩).covers = [(0, [false, true, true])] := by with_unfolding_all decide
 
 end Sageopt.Props.C19
